@@ -527,7 +527,9 @@ def normalise(t):
 # Hypothesis strategies
 # --------------------------------------------------------------------------
 NUM_POOL = [0.0, 1.0, 2.0, 3.0, 5.0, 7.0, 10.0, 0.5, 0.25, 2.5, 1.5, 100.0, 12.0]
-STR_POOL = ['a', 'B', 'abc', '', ' ', '3', 'x y', 'a"b', "it's", 'a,b', '(', ')', '{1;2}', 'A1', '1+1', '-', '%', 'TRUE']
+STR_POOL = ['a', 'B', 'abc', '', ' ', '3', 'x y', 'a"b', "it's", 'a,b', '(', ')', '{1;2}', 'A1', '1+1', '-', '%', 'TRUE',
+            # texts that are exactly one token of the grammar
+            ',', ';', '{', '}', ':', '!', '#', '"', '=', '&', '#REF!', '$A$1', '<>', 'SUM(']
 CELLS = ['A1', 'B1', 'C1', 'D1', 'A2', 'B2']
 RANGES = ['A1:B1', 'A1:A2', 'A1:B2', 'C1:D1', 'B1:B2']
 SHEETS = [None, None, None, None, 'Sheet1', 'S 1', '[b.xlsx]T']
